@@ -45,6 +45,8 @@ def hx(b):
 def make_data(rng, kind):
     if kind == 'i2':
         return np.array([rng.randrange(-3000, 3000) for _ in range(24)], np.int16).reshape(2, 3, 4)
+    if kind == 'slab':
+        return np.array([rng.randrange(1, 3000) for _ in range(12 * 12 * 4)], np.int16).reshape(12, 12, 4)
     if kind == 'f4':
         return np.array([rng.uniform(-50, 50) for _ in range(12)], np.float32).reshape(2, 3, 2)
     return np.array([rng.randrange(0, 256) for _ in range(60)], np.uint8).reshape(5, 4, 3)
@@ -55,9 +57,9 @@ def build_specs(rng):
     import nibabel as nib
     specs = []
 
-    def vol(name, cls, kind, endian='<', ext=False, comps=COMPS, hasext=True, members=None):
+    def vol(name, cls, kind, endian='<', ext=False, comps=COMPS, hasext=True, members=None, modes=('full',)):
         specs.append(dict(name=name, family='vol', cls=cls, data=make_data(rng, kind), endian=endian, ext=ext,
-                          comps=comps, hasext=hasext, members=members))
+                          comps=comps, hasext=hasext, members=members, modes=list(modes)))
     vol('nifti1', nib.Nifti1Image, 'i2')
     vol('nifti1_ext_be', nib.Nifti1Image, 'f4', endian='>', ext=True)
     vol('nifti2', nib.Nifti2Image, 'u1')
@@ -67,16 +69,20 @@ def build_specs(rng):
     vol('spm99', nib.Spm99AnalyzeImage, 'u1', hasext=False)
     vol('spm2', nib.Spm2AnalyzeImage, 'f4', endian='>', hasext=False)
     vol('mgh', nib.MGHImage, 'i2', comps=['', '.mgz'])
-    specs.append(dict(name='cifti2', family='cifti', comps=['']))
-    specs.append(dict(name='gifti', family='gifti', comps=['', '.gz', '.bz2']))
+    # slabs larger than the 256-byte skip threshold of fileslice, so that stepped slices read several segments
+    vol('nifti1_slabs', nib.Nifti1Image, 'slab', comps=['', '.gz'], modes=['full', 'slice_step', 'slice_last'])
+    vol('analyze_slabs', nib.AnalyzeImage, 'slab', hasext=False, comps=[''], modes=['full', 'slice_step', 'slice_last'])
+    vol('mgh_slabs', nib.MGHImage, 'slab', comps=[''], modes=['full', 'slice_step', 'slice_last'])
+    specs.append(dict(name='cifti2', family='cifti', comps=[''], modes=['full', 'slice_step']))
+    specs.append(dict(name='gifti', family='gifti', comps=['', '.gz', '.bz2'], modes=['full', 'bs2048', 'bs3000']))
     pts = lambda n: np.array([[rng.uniform(-90, 90) for _ in range(3)] for _ in range(n)], '<f4')  # noqa
-    specs.append(dict(name='tck', family='tck', sl=[pts(2), pts(1), pts(3)], comps=COMPS))
+    specs.append(dict(name='tck', family='tck', sl=[pts(2), pts(1), pts(3)], comps=COMPS, modes=['full', 'lazy_retry']))
     specs.append(dict(name='tck_empty', family='tck', sl=[], comps=['']))
     inf = np.array([[np.inf, -np.inf, np.inf]], '<f4')
     specs.append(dict(name='tck_inf_first', family='tck', sl=[pts(2), inf.copy(), pts(1), np.vstack([inf, pts(1)]), pts(2)],
                       comps=[''], probe='S-C08b'))
     specs.append(dict(name='trk', family='trk', sl=[pts(2), pts(1), pts(3)], comps=COMPS,
-                      dpp={'fa': 1}, dps={'w': 2}))
+                      dpp={'fa': 1}, dps={'w': 2}, modes=['full', 'lazy_retry']))
     specs.append(dict(name='trk_empty', family='trk', sl=[], comps=[''], dpp={}, dps={}))
     return specs
 
@@ -125,7 +131,7 @@ def write_spec(spec, d, comp):
         return {'image': main}, main
     if fam == 'gifti':
         from nibabel.gifti import GiftiImage, GiftiDataArray
-        img = GiftiImage(darrays=[GiftiDataArray(np.arange(9, dtype=np.float32).reshape(3, 3), intent='NIFTI_INTENT_POINTSET',
+        img = GiftiImage(darrays=[GiftiDataArray((np.arange(330, dtype=np.float32).reshape(110, 3) * 0.37) ** 1.5, intent='NIFTI_INTENT_POINTSET',
                                                  datatype='NIFTI_TYPE_FLOAT32'),
                                   GiftiDataArray(np.array([[0, 1, 2]], np.int32), intent='NIFTI_INTENT_TRIANGLE',
                                                  datatype='NIFTI_TYPE_INT32')])
@@ -158,35 +164,59 @@ def write_spec(spec, d, comp):
     return {'image': main}, main
 
 
-def load_observable(fam, main, mmap, lazy=False):
-    """what the statement compares: voxel values / streamlines (with their per-point data for TRK)"""
+def tract_observable(t, lazy):
+    if lazy:
+        items = list(t)
+        return (tuple(np.asarray(s).tobytes() for s in t.streamlines),
+                tuple(sorted((k, tuple(np.asarray(it.data_for_points[k]).tobytes() for it in items))
+                             for k in (items[0].data_for_points if items else {}))),
+                tuple(sorted((k, np.asarray([it.data_for_streamline[k] for it in items]).tobytes())
+                             for k in (items[0].data_for_streamline if items else {}))))
+    return (tuple(np.asarray(s).tobytes() for s in t.streamlines),
+            tuple(sorted((k, tuple(np.asarray(x).tobytes() for x in v)) for k, v in t.data_per_point.items())),
+            tuple(sorted((k, np.asarray(v).tobytes()) for k, v in t.data_per_streamline.items())))
+
+
+def load_observable(fam, main, mmap, lazy=False, mode='full'):
+    """what the statement compares: voxel values / streamlines (with their per-point data for TRK).
+    modes: full = the whole array / all streamlines; slice_step, slice_last = partial reads through the
+    array proxy (img.dataobj[..., 1::2], img.dataobj[..., -1]); lazy_retry = three successive reads from one
+    lazily loaded tractogram object (the set of results of the reads that did not raise);
+    bs<N> = GIFTI parsed with buffer_size=N"""
     import nibabel as nib
     with warnings.catch_warnings():
         warnings.simplefilter('ignore')
         if fam in ('vol', 'cifti'):
             img = nib.load(main, mmap=mmap) if fam == 'vol' else nib.load(main)
-            a = np.asanyarray(img.dataobj)
+            if mode == 'slice_step':
+                a = np.asarray(img.dataobj[(slice(None),) * (len(img.shape) - 1) + (slice(1, None, 2),)])
+            elif mode == 'slice_last':
+                a = np.asarray(img.dataobj[..., -1])
+            else:
+                a = np.asanyarray(img.dataobj)
             return (a.shape, a.dtype.str, a.tobytes())
         if fam == 'gifti':
-            img = nib.load(main)
-            return tuple((da.data.shape, da.data.dtype.str, da.data.tobytes()) for da in img.darrays)
+            img = nib.load(main, buffer_size=int(mode[2:])) if mode.startswith('bs') else nib.load(main)
+            return tuple((None, None, None) if da.data is None else (da.data.shape, da.data.dtype.str, da.data.tobytes())
+                         for da in img.darrays)
+        if mode == 'lazy_retry':
+            tf = nib.streamlines.load(main, lazy_load=True)
+            got, last = [], None
+            for _ in range(3):
+                try:
+                    got.append(tract_observable(tf.tractogram, True))
+                except Exception as e:  # noqa
+                    last = e
+            if not got:
+                raise last
+            return tuple(sorted(set(got)))
         tf = nib.streamlines.load(main, lazy_load=lazy)
-        t = tf.tractogram
-        if lazy:      # compressed tractograms: the eager TRK loader cannot seek(0, SEEK_END) on indexed gzip
-            items = list(t)
-            return (tuple(np.asarray(s).tobytes() for s in t.streamlines),
-                    tuple(sorted((k, tuple(np.asarray(it.data_for_points[k]).tobytes() for it in items))
-                                 for k in (items[0].data_for_points if items else {}))),
-                    tuple(sorted((k, np.asarray([it.data_for_streamline[k] for it in items]).tobytes())
-                                 for k in (items[0].data_for_streamline if items else {}))))
-        return (tuple(np.asarray(s).tobytes() for s in t.streamlines),
-                tuple(sorted((k, tuple(np.asarray(x).tobytes() for x in v)) for k, v in t.data_per_point.items())),
-                tuple(sorted((k, np.asarray(v).tobytes()) for k, v in t.data_per_streamline.items())))
+        return tract_observable(tf.tractogram, lazy)
 
 
 def sweep_worker(task):
     """child process: truncate one member at each length, load, classify"""
-    (repo, workdir, fam, members, main, key, mmap, lens, expected, lazy) = task
+    (repo, workdir, fam, members, main, key, mmap, lens, expected, lazy, mode) = task
     import sys
     if sys.path[0] != repo:
         sys.path.insert(0, repo)
@@ -211,7 +241,7 @@ def sweep_worker(task):
                 os.link(p, q)
         mainq = stem + os.path.basename(main)[1:]
         try:
-            obs = load_observable(fam, mainq, mmap, lazy)
+            obs = load_observable(fam, mainq, mmap, lazy, mode)
             if obs == expected:
                 out.append('Q')
             else:
@@ -285,7 +315,9 @@ def run(chk: Check):
                 'an extension, big-endian), NIfTI-2, NIfTI-1/2 pairs (.hdr with extension, .img), Analyze, SPM99, SPM2 '
                 '(.hdr, .img, .mat), MGH/MGZ, CIFTI-2, GIFTI, TCK (3 streamlines; empty; streamlines starting with an '
                 'all-inf point), TRK (3 streamlines with scalars and properties; empty) x {plain, .gz, .bz2, .zst} x mmap '
-                '{True, False}; the set of files and cut points is exhaustive and seed-independent, the seed only '
+                '{True, False}; plus, on files with slabs above the fileslice skip threshold, partial reads img.dataobj[..., 1::2] '
+                'and [..., -1] at every cut; three successive reads from one lazily loaded TCK/TRK object at every cut; GIFTI '
+                'parsed with buffer_size 2048 and 3000 at every cut; the set of files and cut points is exhaustive and seed-independent, the seed only '
                 'changes voxel values and coordinates; non-trivial = every cut point (a strict prefix); distinct by '
                 '(file kind, compression, member, mmap, length)')
     chk.exhaustive = True
@@ -323,8 +355,10 @@ def run(chk: Check):
             os.makedirs(d)
             members, main = write_spec(spec, d, comp)
             lazy = bool(comp) and fam in ('tck', 'trk')
+            modes = [m for m in spec.get('modes', ['full']) if not (m == 'lazy_retry' and comp)]
             try:
                 expected = load_observable(fam, main, False, lazy)
+                expected_by_mode = {m: load_observable(fam, main, False, lazy, m) for m in modes}
             except Exception as e:  # noqa
                 chk.violation('property_violation', case={'spec': spec['name'], 'comp': comp},
                               predicate=f'the complete file written by the library does not load: {type(e).__name__}: {str(e)[:120]}')
@@ -351,10 +385,14 @@ def run(chk: Check):
                 plain = raw if not comp or key == 'mat' else read_plain(comp, path)
                 lens = list(range(len(raw)))
                 mmaps = [False, True] if not comp else [False]
-                for mm in mmaps:
-                    for lo in range(0, len(lens), 160):
-                        tasks.append((REPO, chk.workdir, fam, members, main, key, mm, lens[lo:lo + 160], expected, lazy))
-                        meta.append((si, comp, key, mm, lo))
+                for mode in modes:
+                    if mode != 'full' and key not in ('image',):
+                        continue          # partial reads / retries concern the member that holds the data
+                    for mm in (mmaps if mode in ('full', 'slice_step', 'slice_last') else [False]):
+                        for lo in range(0, len(lens), 160):
+                            tasks.append((REPO, chk.workdir, fam, members, main, key, mm, lens[lo:lo + 160],
+                                          expected_by_mode[mode], lazy, mode))
+                            meta.append((si, comp, key, (mm, mode), lo))
                 # model line for this member
                 cid = f'{si}{comp}:{key}'
                 if comp and key != 'mat':
@@ -391,29 +429,31 @@ def run(chk: Check):
     t_sweep = time.time() - t0 - t_prep
     impl = {}
     diffs = {}
-    for (si, comp, key, mm, lo), (s, differ) in zip(meta, results):
-        impl.setdefault((si, comp, key, mm), {})[lo] = s
+    for (si, comp, key, variant, lo), (s, differ) in zip(meta, results):
+        impl.setdefault((si, comp, key, variant), {})[lo] = s
         for n, rep in differ:
-            diffs.setdefault((si, comp, key, mm), []).append((n, rep))
+            diffs.setdefault((si, comp, key, variant), []).append((n, rep))
     mod = run_model(PROP, lines, timeout=600)
     t_model = time.time() - t0 - t_prep - t_sweep
     # ---- compare
-    for (si, comp, key, mm), parts in sorted(impl.items()):
+    for (si, comp, key, variant), parts in sorted(impl.items()):
+        mm, mode = variant
         spec = specs[si]
         s = ''.join(parts[lo] for lo in sorted(parts))
         m = spec['_members'][(comp, key)]
-        name = f"{spec['name']}{comp}:{key}:mmap={int(mm)}"
+        name = f"{spec['name']}{comp}:{key}:mmap={int(mm)}" + ('' if mode == 'full' else ':' + mode)
         for n, c in enumerate(s):
-            chk.count(key=(spec['name'], comp, key, mm, n), tag=f"{spec['name']}{comp or ':plain'}",
+            chk.count(key=(spec['name'], comp, key, mm, mode, n), tag=f"{spec['name']}{comp or ':plain'}",
                       sample={'file': spec['name'] + comp, 'member': key, 'mmap': mm, 'cut_at': n, 'of': len(s), 'outcome': c}
-                      if (n == len(s) // 2 and key == 'image' and not mm) else None)
+                      if (n == len(s) // 2 and key == 'image' and not mm and mode == 'full') else None)
         chk.tagc('outcome:exception', s.count('E'))
         chk.tagc('outcome:equal', s.count('Q'))
         chk.tagc('outcome:DIFFERENT', s.count('D'))
         chk.tagc('mmap=True' if mm else 'mmap=False', len(s))
+        chk.tagc('read_mode:' + mode, len(s))
         # the property predicate, directly
-        for n, rep in diffs.get((si, comp, key, mm), []):
-            desc = dict(spec=spec['name'], comp=comp, member=key, mmap=mm, cut_at=n, file_hex=m['raw'].hex(), family=spec['family'])
+        for n, rep in diffs.get((si, comp, key, variant), []):
+            desc = dict(spec=spec['name'], comp=comp, member=key, mmap=mm, mode=mode, cut_at=n, file_hex=m['raw'].hex(), family=spec['family'])
             if spec.get('probe') == 'S-C08b' and known_b_signature(spec, m['raw'], n):
                 chk.known(*KNOWN_B)
                 chk.tagc('known:S-C08b')
@@ -421,8 +461,8 @@ def run(chk: Check):
                 chk.violation('property_violation', case=desc, impl_output=rep,
                               predicate=f'{name}: the file cut at byte {n} of {len(m["raw"])} loads without error as DIFFERENT data')
         # correspondence with the model
-        if m['cid'] is None:
-            chk.tagc('oracle_member_predicate_only', len(s))
+        if m['cid'] is None or mode not in ('full', 'lazy_retry'):
+            chk.tagc('oracle_member_predicate_only' if m['cid'] is None else 'partial_read_predicate_only', len(s))
             continue
         ms = mod.get(m['cid'], '<missing>')
         if not ms.startswith('ok ') or len(ms) - 3 != len(s):
@@ -444,9 +484,9 @@ def run(chk: Check):
                 bad.append((n, a, b))
         if bad:
             chk.disagreements += 1
-            if not diffs.get((si, comp, key, mm)):
+            if not diffs.get((si, comp, key, variant)):
                 n, a, b = bad[0]
-                chk.violation('correspondence', case=dict(spec=spec['name'], comp=comp, member=key, mmap=mm, cut_at=n,
+                chk.violation('correspondence', case=dict(spec=spec['name'], comp=comp, member=key, mmap=mm, mode=mode, cut_at=n,
                                                           file_hex=m['raw'].hex(), family=spec['family']),
                               model_output=f'{a} (all: {len(bad)} cut points differ, first {bad[:5]})', impl_output=b,
                               predicate=f'{name}: outcome class of the model and of the implementation differ at cut {n}; '
@@ -480,6 +520,9 @@ def run(chk: Check):
 
 
 UNPROVED = [
+    'partial reads through the array proxy (fileslice) of a truncated file, repeated reads from one lazily loaded '
+    'tractogram object, and GIFTI parsing with an explicit buffer_size: no model; every cut point is swept against the '
+    'predicate (exception, or exactly the corresponding part of the data written)',
     'GIFTI (expat) and the SPM .mat member (scipy.io.loadmat): no model; every cut point is swept against the predicate only',
     'that gzip/bz2/zstd/indexed_gzip satisfy the contract of C08_prefix_compressed (a truncated stream delivers a prefix of '
     'the plain bytes, then raises or ends): oracle, measured by the harness on every cut point, not proved',
@@ -527,12 +570,12 @@ def replay(chk, obj):
     open(full, 'wb').write(raw)
     open(cut, 'wb').write(raw[:c['cut_at']])
     try:
-        exp = load_observable(fam, full, c['mmap'])
+        exp = load_observable(fam, full, c['mmap'], False, c.get('mode', 'full'))
     except Exception as e:  # noqa
         print('the complete file does not load (pair member?):', repr(e)[:100])
         return 1
     try:
-        got = load_observable(fam, cut, c['mmap'])
+        got = load_observable(fam, cut, c['mmap'], False, c.get('mode', 'full'))
     except Exception as e:  # noqa
         print('cut file raises', type(e).__name__, '- property holds on this case')
         return 0
